@@ -69,7 +69,10 @@ mod probe {
                 let mut fails = vec![];
                 let mut last = 0u64;
                 for i in 0..k {
-                    let ms = 1 + lcg(&mut st) % 5;
+                    // one handler of the first scenario takes more than a second (the collector's
+                    // arithmetic must not lose whole seconds)
+                    let ms0 = 1 + lcg(&mut st) % 5;
+                    let ms = if sc == 0 && i == 0 { 1100 } else { ms0 };
                     let is_last = i == k - 1;
                     let panic = is_last && ending == 2;
                     if lcg(&mut st) % 2 == 0 {
